@@ -14,7 +14,7 @@ import (
 
 func init() {
 	register(&core.Rule{ID: "N1", Min: 15,
-		Doc: "Narrowing guards of the alternative decoder: every conversion intN(x)/uintN(x)/float32(x), N < 64, of a parsed 64-bit number in internal/decoder/optdec is reached only on go/cfg paths on which x was compared against bounds that fit the destination width (x > Max / x < Min with the out-of-range edge leaving), since x was last assigned. A missing or wider guard makes out-of-range literals wrap silently.",
+		Doc: "Narrowing guards of the alternative decoder: every conversion intN(x)/uintN(x)/float32(x), N < 64, of a parsed 64-bit number in internal/decoder/optdec is reached only on go/cfg paths on which x was compared against bounds that fit the destination width (x > Max / x < Min with the out-of-range edge leaving), since x was last assigned; a missing or wider guard makes out-of-range literals wrap silently. float32(x) rounds and overflows to an infinity instead: there the narrowed value must be tested with math.IsInf before use (testing the float64 against MaxFloat32 first is what N3 forbids).",
 		Run: runN1})
 }
 
@@ -62,6 +62,7 @@ func meetN(a *nbounds, b nbounds) bool {
 type narrowT struct {
 	min, max constant.Value
 	signed   bool
+	isFloat  bool
 }
 
 func narrowInfo(t types.Type) (narrowT, bool) {
@@ -72,19 +73,19 @@ func narrowInfo(t types.Type) (narrowT, bool) {
 	mk := constant.MakeInt64
 	switch b.Kind() {
 	case types.Int8:
-		return narrowT{mk(math.MinInt8), mk(math.MaxInt8), true}, true
+		return narrowT{mk(math.MinInt8), mk(math.MaxInt8), true, false}, true
 	case types.Int16:
-		return narrowT{mk(math.MinInt16), mk(math.MaxInt16), true}, true
+		return narrowT{mk(math.MinInt16), mk(math.MaxInt16), true, false}, true
 	case types.Int32:
-		return narrowT{mk(math.MinInt32), mk(math.MaxInt32), true}, true
+		return narrowT{mk(math.MinInt32), mk(math.MaxInt32), true, false}, true
 	case types.Uint8:
-		return narrowT{mk(0), mk(math.MaxUint8), false}, true
+		return narrowT{mk(0), mk(math.MaxUint8), false, false}, true
 	case types.Uint16:
-		return narrowT{mk(0), mk(math.MaxUint16), false}, true
+		return narrowT{mk(0), mk(math.MaxUint16), false, false}, true
 	case types.Uint32:
-		return narrowT{mk(0), mk(math.MaxUint32), false}, true
+		return narrowT{mk(0), mk(math.MaxUint32), false, false}, true
 	case types.Float32:
-		return narrowT{constant.MakeFloat64(-math.MaxFloat32), constant.MakeFloat64(math.MaxFloat32), true}, true
+		return narrowT{constant.MakeFloat64(-math.MaxFloat32), constant.MakeFloat64(math.MaxFloat32), true, true}, true
 	}
 	return narrowT{}, false
 }
@@ -230,6 +231,16 @@ func runN1(c *core.Ctx) {
 				c.Undecided(cn, s.call.Pos(), "conversion not reached in CFG")
 				continue
 			}
+			if s.nt.isFloat {
+				// float64 -> float32 rounds and overflows to an infinity, it does not wrap: the
+				// range is decided on the narrowed value (N3 explains why not before narrowing)
+				if postInfCheck(p, fd, s.call) {
+					c.OK(cn, s.call.Pos(), "%s(%s): the narrowed value is tested with math.IsInf before it is used", s.tn, s.x.Name())
+				} else {
+					c.Bad(cn, s.call.Pos(), "%s(%s): the narrowed value is not tested for infinity (`v := float32(x); if math.IsInf(float64(v), 0) { error }`): an out-of-range JSON number becomes +Inf/-Inf silently under the alternative decoder", s.tn, s.x.Name())
+				}
+				continue
+			}
 			ub, hasU := f.ub[s.x]
 			lb, hasL := f.lb[s.x]
 			srcUnsigned := false
@@ -313,4 +324,56 @@ func applyCond(p *core.Program, cond ast.Expr, outcome bool, b *nbounds) {
 			}
 		}
 	}
+}
+
+// postInfCheck: the conversion initialises a local v, and a later if statement whose condition
+// calls math.IsInf on v (possibly widened again) leaves the function.
+func postInfCheck(p *core.Program, fd *ast.FuncDecl, conv *ast.CallExpr) bool {
+	var v types.Object
+	ast.Inspect(fd.Body, func(n ast.Node) bool {
+		if as, ok := n.(*ast.AssignStmt); ok {
+			for i, r := range as.Rhs {
+				if ast.Unparen(r) == conv && i < len(as.Lhs) {
+					if id, ok := as.Lhs[i].(*ast.Ident); ok {
+						v = p.ObjectOf(id)
+					}
+				}
+			}
+		}
+		return true
+	})
+	if v == nil {
+		return false
+	}
+	ok := false
+	ast.Inspect(fd.Body, func(n ast.Node) bool {
+		is, isIf := n.(*ast.IfStmt)
+		if !isIf || is.Pos() < conv.End() {
+			return true
+		}
+		tests := false
+		ast.Inspect(is.Cond, func(x ast.Node) bool {
+			if call, isCall := x.(*ast.CallExpr); isCall {
+				if o := p.Callee(call); o != nil && o.Pkg() != nil && o.Pkg().Path() == "math" && o.Name() == "IsInf" && len(call.Args) >= 1 {
+					ast.Inspect(call.Args[0], func(y ast.Node) bool {
+						if id, isId := y.(*ast.Ident); isId && p.ObjectOf(id) == v {
+							tests = true
+						}
+						return true
+					})
+				}
+			}
+			return true
+		})
+		if !tests {
+			return true
+		}
+		for _, st := range is.Body.List {
+			if _, isRet := st.(*ast.ReturnStmt); isRet {
+				ok = true
+			}
+		}
+		return true
+	})
+	return ok
 }
